@@ -1,6 +1,7 @@
 package main
 
 import (
+	"go/types"
 	"fmt"
 	"go/token"
 	"strings"
@@ -395,6 +396,41 @@ func c11(r *Run) {
 		r.ob("C11.R6:close-returns-true", "the close path reports 'closed' to the wait loop", disp, nil, !bad && len(starts) > 0, "returns true", true)
 		r.neverReach("C11.R6:close-stops-dispatch", "after the close message no further event of the batch is dispatched", disp, nil, starts, isIns(getCall), nil, nil, nil, "no further fetch")
 		// Wait returns when the handler says closed
+		// "try again" is not an error: a read/send that would block reports (0, nil); anything else non-nil makes the dispatch
+		// function hang the connection up (readall loops until a short read, so its last attempt regularly meets EAGAIN)
+		for _, name := range []string{"ioread", "iosend"} {
+			fn := w.MustFn(name)
+			eagain, okc := w.PkgConst("syscall", "EAGAIN")
+			if !okc {
+				broken("ANCHOR-LOST syscall.EAGAIN")
+			}
+			isAgain := func(v ssa.Value) (bool, bool) {
+				b, ok := v.(*ssa.BinOp)
+				if !ok || (b.Op != token.EQL && b.Op != token.NEQ) {
+					return false, false
+				}
+				for _, side := range [][2]ssa.Value{{b.X, b.Y}, {b.Y, b.X}} {
+					y := side[1]
+					if mi, ok := y.(*ssa.MakeInterface); ok {
+						y = mi.X
+					}
+					if k, ok := constInt(y); ok && k == eagain && types.Identical(side[0].Type(), types.Universe.Lookup("error").Type()) {
+						return b.Op == token.EQL, true
+					}
+				}
+				return false, false
+			}
+			starts := edgesEstablishing(fn, isAgain)
+			okAll := len(starts) > 0
+			ss := &Search{Fn: fn}
+			for _, ret := range ss.Reachable(starts, func(i ssa.Instruction) bool { _, ok := i.(*ssa.Return); return ok }) {
+				if !lastResultAll(ret.(*ssa.Return), isNilConst) {
+					okAll = false
+				}
+			}
+			r.Visited += ss.Visited
+			r.ob("C11.R3:would-block-is-not-an-error:"+name, "when the kernel says EAGAIN "+name+" reports (0, nil): the dispatch function treats every non-nil error of a read or send as a reason to hang the connection up", fn, nil, okAll, "the err == EAGAIN edge returns a nil error", true)
+		}
 		waitFn := w.MustFn("(*defaultPoll).Wait")
 		// between the kernel filling the event array and its dispatch nothing replaces the array: growing it (Reset) there
 		// would dispatch a fresh, zeroed array and drop the batch - for edge-triggered registrations for good
